@@ -1304,6 +1304,14 @@ func (l *Loop) decode(d *decoder) {
 		l.vertices[i].X = d.readFloat64()
 		l.vertices[i].Y = d.readFloat64()
 		l.vertices[i].Z = d.readFloat64()
+		if d.err == nil && !l.vertices[i].IsUnit() {
+			// The index and the predicates assume unit-length vertices. With
+			// vertices of (say) length 1e-300 the index build measures every
+			// edge as "short" and subdivides it down to the leaf level, which
+			// does not terminate in any reasonable time.
+			d.err = fmt.Errorf("vertex %d is not unit length", i)
+			return
+		}
 	}
 	l.index = NewShapeIndex()
 	l.originInside = d.readBool()
